@@ -145,21 +145,19 @@ Theorem C13_fma_exact_product : forall f x y z, product_exact f x y -> ct_fma f 
 Proof. exact fma_exact_product. Qed.
 Print Assumptions C13_fma_exact_product.
 
-(** * fmod / remainder: recorded findings KF-C13-fmod-ct-gcem, KF-C13-remainder-ct-is-fmod.  The
-    constant-evaluation fallback of both is gcem::fmod (rounded quotient, NaN for infinite operands);
-    the run-time builtins are exact: fmod(1e10f, 3.0f) = 0 / 1, remainder(5.0f, 3.0f) = 2 / -1,
-    fmod(5.0f, inf) = NaN / 5 *)
-Theorem C13_fmod_remainder_refuted :
-  (valid binary32 (f32 1343554297) = true /\ valid binary32 (f32 1077936128) = true /\
-   ct_fmod binary32 (f32 1343554297) (f32 1077936128) = Ok (FZero false) /\
+(** * fmod / remainder: the witnesses of the former findings (fmod(1e10f, 3.0f), remainder(5.0f, 3.0f),
+    fmod(5.0f, inf)) and the odd-subnormal cases now agree with the exact operations (evaluation; the
+    general statement is C13_fmod_remainder below when present, otherwise only tested) *)
+Theorem C13_fmod_remainder_witnesses :
+  (ct_fmod binary32 (f32 1343554297) (f32 1077936128) = Ok (rt_fmod (f32 1343554297) (f32 1077936128)) /\
    rt_fmod (f32 1343554297) (f32 1077936128) = FFin false 1 0) /\
-  (valid binary32 (f32 1084227584) = true /\
-   ct_remainder binary32 (f32 1084227584) (f32 1077936128) = Ok (FFin false 1 1) /\
+  (ct_remainder binary32 (f32 1084227584) (f32 1077936128) = Ok (rt_remainder (f32 1084227584) (f32 1077936128)) /\
    rt_remainder (f32 1084227584) (f32 1077936128) = FFin true 1 0) /\
-  (ct_fmod binary32 (f32 1084227584) (FInf false) = Ok qnan /\
-   rt_fmod (f32 1084227584) (FInf false) = f32 1084227584).
-Proof. exact fmod_remainder_refuted. Qed.
-Print Assumptions C13_fmod_remainder_refuted.
+  (ct_fmod binary32 (f32 1084227584) (FInf false) = Ok (f32 1084227584)) /\
+  (ct_fmod binary32 (f32 3) (f32 1) = Ok (FZero false) /\ ct_remainder binary32 (f32 3) (f32 2) = Ok (FFin true 1 (-149)) /\
+   rt_remainder (f32 3) (f32 2) = FFin true 1 (-149)).
+Proof. exact fmod_remainder_witnesses. Qed.
+Print Assumptions C13_fmod_remainder_witnesses.
 
 (** * the hypotheses are satisfiable: "ab" against "abc" is defined and negative; the strings are
     terminated inside their arrays; 2.5 and 3.5 are values of binary64 inside the domain of lrint;
